@@ -194,9 +194,10 @@ Definition ok_contig (c : case) : bool :=
   | _ => true
   end.
 
-(** retention: [strict] = the property's text (never more than max_nr); otherwise the proved
-    bound: if the delta at index max_nr - 1 is not protected (index < min_nr or younger than
-    min_seconds), at most max_nr deltas are retained; every retained old delta is protected or
+(** retention: [strict] = the property's text (never more than max_nr deltas; the new delta itself
+    is always retained, so never more than max max_nr 1); otherwise the proved form
+    (retention_explained_system): every old delta retained at a position beyond max_nr is
+    protected (index < min_nr or younger than min_seconds); every retained old delta is protected or
     not older than max_seconds. *)
 Fixpoint forall_idx {A : Type} (p : N -> A -> bool) (i : N) (l : list A) : bool :=
   match l with [] => true | x :: r => p i x && forall_idx p (i + 1) r end.
@@ -222,13 +223,9 @@ Definition ok_retention (c : case) : bool :=
         let cf := or_cfg orc in let now := or_now orc in
         let n := N.of_nat (length (r_deltas post)) in
         keeps_protected sizes pre post cf now &&
-        if strict then n <=? c_max_nr cf
-        else (if (1 <=? c_max_nr cf)
-                 && match nth_error (r_deltas pre) (N.to_nat (c_max_nr cf - 1)) with
-                    | Some d => negb (protected cf now (c_max_nr cf - 1) d)
-                    | None => true
-                    end
-              then n <=? c_max_nr cf else true)
+        if strict then n <=? N.max (c_max_nr cf) 1
+        else forall_idx (fun i d => if (i + 1 <? n) && (c_max_nr cf <=? i + 1) then protected cf now i d else true)
+                        0 (r_deltas pre)
              && forall_idx (fun i d => if i <? n - 1 then protected cf now i d || negb (older_than now (c_max_secs cf) d) else true)
                            0 (r_deltas pre)
              && (n <=? N.of_nat (length (r_deltas pre)) + 1)
